@@ -179,7 +179,7 @@ def main(chk, tier, only=None):
     known = json.load(open(chk.KNOWN)).get("known", []) if os.path.exists(chk.KNOWN) else []
     rc = 0
     new = 0
-    os.makedirs(os.path.join(chk.VERIF, "replays"), exist_ok=True)
+    os.makedirs(chk.replay_dir(), exist_ok=True)
     for i, v in enumerate(viols):
         key = f"{v['step']}:{v['config']}"
         k = [e for e in known if e.get("property") == "C17" and e.get("key") == key]
@@ -189,7 +189,7 @@ def main(chk, tier, only=None):
         new += 1
         rc = 1
         if new <= 8:
-            path = os.path.join(chk.VERIF, "replays", f"C17-{chk.SEED}-{i}.json")
+            path = os.path.join(chk.replay_dir(), f"C17-{chk.SEED}-{i}.json")
             body = {"property": "C17", "invariant": v["step"], "finding_key": key, "seed": int(chk.SEED), "tier": tier,
                     "features": v["features"], "observed": v["detail"], "expected": "builds without warnings and reproduces the default configuration's digests"}
             json.dump(body, open(path, "w"), indent=1)
@@ -216,7 +216,7 @@ def main(chk, tier, only=None):
                         "behavioural equality is judged on the seeded workload of `fipsim digest`, not on all inputs"],
         "wall_s": round(time.time() - t0, 2), "violations": new, "repo": chk.REPO,
     }
-    os.makedirs(os.path.join(chk.VERIF, "evidence"), exist_ok=True)
+    os.makedirs(os.path.dirname(chk.evidence_path("C17")), exist_ok=True)
     json.dump(ev, open(chk.evidence_path("C17"), "w"), indent=1)
     print(f"[C17] {len(results)} configurations, {ops} digested operations, {new} violations, {time.time()-t0:.0f}s")
     return rc
